@@ -387,3 +387,148 @@ func GraphEdit(r *lib.Rand, doc map[string]any) string {
 		return "alias-definition"
 	}
 }
+
+// SchemaEdit applies ONE small edit which (most of the time) makes an otherwise valid specification violate the
+// Swagger 2.0 schema at exactly one place: a pattern, an enum, a format, a closed object, a bound or a uniqueness
+// constraint of the meta-schema.  Whether the result is schema-invalid is decided by the reference model, not here.
+func SchemaEdit(r *lib.Rand, doc map[string]any) string {
+	paths, _ := doc["paths"].(map[string]any)
+	var ops []map[string]any
+	var opKeys []string
+	for _, pk := range sortedKeys(paths) {
+		item, _ := paths[pk].(map[string]any)
+		for _, m := range []string{"get", "put", "post", "delete"} {
+			if o, ok := item[m].(map[string]any); ok {
+				ops = append(ops, o)
+				opKeys = append(opKeys, pk+"."+m)
+			}
+		}
+	}
+	info, _ := doc["info"].(map[string]any)
+	anyOp := func() (map[string]any, string) {
+		if len(ops) == 0 {
+			return nil, ""
+		}
+		i := r.Intn(len(ops))
+		return ops[i], opKeys[i]
+	}
+	switch r.Intn(20) {
+	case 0:
+		doc["host"] = r.Pick("", " ", "a/b", "{x}", "h:")
+		return fmt.Sprintf("host=%q", doc["host"])
+	case 1:
+		doc["basePath"] = r.Pick("", "x", " /a", "api/")
+		return fmt.Sprintf("basePath=%q", doc["basePath"])
+	case 2:
+		doc["schemes"] = []any{r.Pick("ftp", "", "HTTP", "http ")}
+		return "schemes"
+	case 3:
+		doc["schemes"] = []any{"http", "http"}
+		return "schemes-duplicate"
+	case 4:
+		doc["consumes"] = []any{r.Pick("", "json", "application/", "a b/c")}
+		return "consumes"
+	case 5:
+		if info != nil {
+			switch r.Intn(3) {
+			case 0:
+				delete(info, "version")
+			case 1:
+				info["title"] = json.Number("7")
+			default:
+				info["contact"] = map[string]any{"email": r.Pick("nobody", "", "a@"), "url": "http://x"}
+			}
+			return "info"
+		}
+	case 6:
+		if paths != nil && len(paths) > 0 {
+			ks := sortedKeys(paths)
+			k := ks[r.Intn(len(ks))]
+			nk := r.Pick("noslash", "", "x-", "relative/{id}")
+			if _, exists := paths[nk]; !exists {
+				paths[nk] = paths[k]
+				delete(paths, k)
+				return fmt.Sprintf("path-key %q", nk)
+			}
+		}
+	case 7:
+		if o, k := anyOp(); o != nil {
+			if resp, ok := o["responses"].(map[string]any); ok {
+				nk := r.Pick("2000", "abc", "20", "", "2xx")
+				resp[nk] = map[string]any{"description": "odd"}
+				return "response-key " + k + " " + nk
+			}
+		}
+	case 8:
+		if o, k := anyOp(); o != nil {
+			ps, _ := o["parameters"].([]any)
+			o["parameters"] = append(ps, map[string]any{"name": "sx", "in": r.Pick("cookie", "", "Query", "body "), "type": "string"})
+			return "param-in " + k
+		}
+	case 9:
+		if o, k := anyOp(); o != nil {
+			ps, _ := o["parameters"].([]any)
+			o["parameters"] = append(ps, map[string]any{"name": "sx", "in": "query", "type": "array", "items": map[string]any{"type": "string"}, "collectionFormat": r.Pick("xsv", "", "CSV", "multi ")})
+			return "param-collectionFormat " + k
+		}
+	case 10:
+		if o, k := anyOp(); o != nil {
+			ps, _ := o["parameters"].([]any)
+			o["parameters"] = append(ps, map[string]any{"name": "sx", "in": "query", "type": r.Pick("object", "", "int", "String")})
+			return "param-type " + k
+		}
+	case 11:
+		if o, k := anyOp(); o != nil {
+			ps, _ := o["parameters"].([]any)
+			o["parameters"] = append(ps, map[string]any{"name": "sx", "in": "query", "type": "string", "required": r.Pick("yes", "true")})
+			return "param-required " + k
+		}
+	case 12:
+		if o, k := anyOp(); o != nil {
+			o["tags"] = []any{"t", "t"}
+			return "tags-duplicate " + k
+		}
+	case 13:
+		if o, k := anyOp(); o != nil {
+			o["externalDocs"] = map[string]any{"description": "no url"}
+			return "externalDocs " + k
+		}
+	case 14:
+		if o, k := anyOp(); o != nil {
+			o["deprecated"] = r.Pick("true", "no")
+			return "deprecated " + k
+		}
+	case 15:
+		if o, k := anyOp(); o != nil {
+			o["security"] = []any{map[string]any{"k": "not-a-list"}}
+			return "security " + k
+		}
+	case 16:
+		doc["securityDefinitions"] = map[string]any{"k": map[string]any{"type": r.Pick("apiKey", "basic", "oauth2"), "in": "cookie", "name": "n", "flow": "implicit"}}
+		return "securityDefinitions"
+	case 17:
+		doc["tags"] = []any{map[string]any{"description": "nameless"}}
+		return "root-tags"
+	case 18:
+		doc["swagger"] = r.Pick("2", "3.0", "", "2.0 ")
+		return "swagger-version"
+	default:
+		if defs, ok := doc["definitions"].(map[string]any); ok && len(defs) > 0 {
+			ks := sortedKeys(defs)
+			if d, ok := defs[ks[r.Intn(len(ks))]].(map[string]any); ok {
+				switch r.Intn(4) {
+				case 0:
+					d["enum"] = []any{}
+				case 1:
+					d["required"] = []any{}
+				case 2:
+					d["maxProperties"] = json.Number("-1")
+				default:
+					d["type"] = r.Pick("any", "", "Object")
+				}
+				return "definition-keyword"
+			}
+		}
+	}
+	return ""
+}
